@@ -76,7 +76,8 @@ def kernel_batch(batch):
 
 # ---------------------------------------------------------------- (b) real runs
 KINDS = {"pyexc": '@s = int(#a)', "argtype": '@s = add(#a, 1)', "rule": '@s = substring(#b, int(#n))',
-         "nested": 'yes() -> @t = add(#a, 2)', "rhs": '@q = subtract(int(#a), 1)', "lasts": 'last.nocontrib() -> @s = int("zz")', "skipafter": '@s = int(#a) skip() yes()'}
+         "nested": 'yes() -> @t = add(#a, 2)', "rhs": '@q = subtract(int(#a), 1)', "lasts": 'last.nocontrib() -> @s = int("zz")', "skipafter": '@s = int(#a) skip() yes()',
+         "stopafter": '@s = int(#a) eq.nocontrib(#b, "y") -> stop() yes()'}
 
 
 def run_impl(job):
@@ -145,6 +146,15 @@ def expected(kind, pol, vm, offending, zero=False):  # noqa: F811
     e = _expected(kind, pol, vm, offending, zero)
     if kind == "skipafter" and e["lines"] is not None:
         e["lines"] = []          # a skip() after the offending component: no line matches; the error is handled all the same
+    if kind == "stopafter":
+        # a later component of the offending line stops the run (stop() is not the last component, so that line is not returned):
+        # the error raised before the stop is handled all the same
+        lo, first = (0 if zero else 1), min(offending)
+        e["seen"] = list(range(lo, first + 1))
+        if e["lines"] is not None:
+            e["lines"] = [str(i) for i in range(lo, first)]
+        if e["error_lines"]:
+            e["error_lines"] = [first]
     return e
 
 
@@ -258,7 +268,7 @@ def run(ctx):
     ctx.coverage.update({
         "evaluations": len(kcases) + len(rjobs), "distinct_nontrivial": len({(j[0], j[1], vm_text(j[2]), tuple(sorted(j[3]))) for j, o in zip(rjobs, rres) if o.get("error_lines") or o["exc"]}),
         "rule": "handler: all 64 policies x all 81 validation-mode comments (raise/print/stop/fail each absent, set, negated) x prior (valid, stopped) states (quick: 1, thorough: 4), real "
-                "ErrorHandler.handle_error on a parsed CsvPath; runs: 7 error kinds (Python exception, argument type, function rule, right of '->', nested, last() on a blank final record, error followed by skip() on the same line) "
+                "ErrorHandler.handle_error on a parsed CsvPath; runs: 8 error kinds (Python exception, argument type, function rule, right of '->', nested, last() on a blank final record, error followed by skip() on the same line, error followed by a non-final stop() on the same line) "
                 "x 64 policies x 5 validation modes x offending-line sets {first, second, last, all, middle two} (quick: one set each), and again over a file without a header row scanned from line 0 with offending sets {0}, {0,2}, {3}, all, real collect() with a TestPrinter. Non-trivial = "
                 "distinct run in which an error was recorded or raised.",
         "samples": [kcase(0), rcase(len(rjobs) // 3)],
